@@ -47,6 +47,14 @@ class DBSpace(data_algebra.data_space.DataSpace):
             self.eligable_for_auto_drop_list.add(key)
         return descr
 
+    def _new_temp_key(self) -> str:
+        """Generate a key not already in use."""
+        while True:
+            self.n_tmp = self.n_tmp + 1
+            key = f"da_temp_{self.n_tmp}"
+            if key not in self.description_map.keys():
+                return key
+
     def insert(
         self, *, key: Optional[str] = None, value, allow_overwrite: bool = True
     ) -> data_algebra.data_ops.TableDescription:
@@ -59,8 +67,7 @@ class DBSpace(data_algebra.data_space.DataSpace):
         :return: table description
         """
         if key is None:
-            self.n_tmp = self.n_tmp + 1
-            key = f"da_temp_{self.n_tmp}"
+            key = self._new_temp_key()
         assert isinstance(key, str)
         assert isinstance(allow_overwrite, bool)
         if not allow_overwrite:
@@ -116,8 +123,7 @@ class DBSpace(data_algebra.data_space.DataSpace):
         :return: data key
         """
         if key is None:
-            self.n_tmp = self.n_tmp + 1
-            key = f"da_temp_{self.n_tmp}"
+            key = self._new_temp_key()
         assert isinstance(key, str)
         assert isinstance(allow_overwrite, bool)
         if key in self.description_map.keys():
